@@ -174,16 +174,29 @@ def main(argv=None):
     names = sorted({strip_sites(o["name"]) for o in obligations})
     exp_path = os.path.join(ROOT, "contracts", "expected_obligations.json")
     expected_all = json.load(open(exp_path)) if os.path.exists(exp_path) else {}
+    fps = {r["qual"]: r.get("fingerprint") for r in fresults}
     if a.update_expected:
         expected_all[prop] = names
+        expected_all.setdefault("_fingerprints", {}).update(fps)
         json.dump(expected_all, open(exp_path, "w"), indent=0, sort_keys=True)
     expected = set(expected_all.get(prop, []))
+    exp_fps = expected_all.get("_fingerprints", {})
+    changed_funcs = {q for q, fp in fps.items() if q in exp_fps and exp_fps[q] != fp}
     missing = sorted(expected - set(names))
     demoted_funcs = {d["func"] for d in demoted}
     missing_hard = [m for m in missing if not any(m.startswith(f + "/") for f in demoted_funcs)]
 
     refuted = [o for o in obligations if o["verdict"] == "refuted"]
     unknown = [o for o in obligations if o["verdict"] in ("unknown", "failed", "crash")]
+    # An obligation that was discharged on the unchanged tree (it is in the committed expected set) and is NOT
+    # discharged now, in a function whose executed source changed, is reported as a violation of that obligation
+    # (no-failing-input-found unless a bounded driver supplies one).  On UNCHANGED source an `unknown` is a solver
+    # matter and stays undecided (exit 2) - it is never turned into an alarm.
+    failed_after_change = [o for o in unknown if o["verdict"] == "unknown" and o.get("func") in changed_funcs
+                           and strip_sites(o["name"]) in expected]
+    unknown = [o for o in unknown if o not in failed_after_change]
+    for f_ in demoted:
+        pass
     discharged = [o for o in obligations if o["verdict"] == "discharged"]
 
     # ---- known findings
@@ -211,10 +224,33 @@ def main(argv=None):
             violations.append(("t2", dict(driver=d["driver"], **v)))
     for o in refuted:
         violations.append(("t1", o))
+    for o in failed_after_change:
+        o = dict(o)
+        o["detail"] = "not discharged any more (solver: unknown) after the function's source changed; it was discharged on the unchanged tree"
+        violations.append(("t1", o))
 
     os.makedirs(os.path.join(ROOT, "replays"), exist_ok=True)
     os.makedirs(os.path.join(ROOT, "evidence"), exist_ok=True)
     out_lines = []
+    # every LISTED finding of this property: replay its committed witness; report it while it still fails
+    for f in kf.get("findings", []):
+        if f["property"] != prop:
+            continue
+        k = f["id"]
+        if f.get("witness") and not a.no_t2:
+            wpath = os.path.join(ROOT, "replays", "witness-%s-%s.json" % (prop, k))
+            json.dump({"input": f["witness"]["input"]}, open(wpath, "w"))
+            d = run_t2(f["witness"]["driver"], tier, a.seed, 30, replay=wpath)
+            still = d.get("status") == "ok" and any(v.get("known") == k for v in d.get("violations", []))
+            other = [v for v in d.get("violations", []) if v.get("known") != k] if d.get("status") == "ok" else []
+            if still or k in known_hits:
+                out_lines.append("KNOWN-FINDING: property=%s %s %s [witness replayed: still fails]" % (prop, k, f["text"]))
+            known_hits.pop(k, None)
+            for v in other:
+                violations.append(("t2", dict(driver=f["witness"]["driver"], **v)))
+        else:
+            out_lines.append("KNOWN-FINDING: property=%s %s %s [outside every driver's scope; not replayed]" % (prop, k, f["text"]))
+            known_hits.pop(k, None)
     rc = 0
     seen_clause = set()
     for kind, v in violations:
